@@ -300,6 +300,40 @@ func c08Concurrent(c *evid.Ctx, seed int64) {
 			r := rand.New(rand.NewSource(seed*17 + int64(cl)))
 			for i := 0; i < 60; i++ {
 				key := fmt.Sprintf("k%d", r.Intn(2))
+				if r.Intn(3) == 0 {
+					// the uint64 API on its own keys: same per-key register model, values
+					// unique per (client, step)
+					key = fmt.Sprintf("u%d", r.Intn(3))
+					if r.Intn(2) == 0 {
+						v := uint64(cl+1)<<40 | uint64(i+1)<<8 | uint64(r.Intn(256))
+						t0 := hist.Ticket()
+						err := w.SetUint64([]byte(key), v)
+						t1 := hist.Ticket()
+						if err != nil {
+							logErr.Store(err)
+							return
+						}
+						mu.Lock()
+						ops = append(ops, porcupine.Operation{ClientId: cl, Input: in{key, true, fmt.Sprint(v)}, Call: t0, Output: "", Return: t1})
+						mu.Unlock()
+					} else {
+						t0 := hist.Ticket()
+						got, err := w.GetUint64([]byte(key))
+						t1 := hist.Ticket()
+						if err != nil {
+							logErr.Store(err)
+							return
+						}
+						out := fmt.Sprint(got)
+						if got == 0 {
+							out = "" // never-set keys read as 0
+						}
+						mu.Lock()
+						ops = append(ops, porcupine.Operation{ClientId: cl, Input: in{key, false, ""}, Call: t0, Output: out, Return: t1})
+						mu.Unlock()
+					}
+					continue
+				}
 				if r.Intn(2) == 0 {
 					val := fmt.Sprintf("c%d-%d", cl, i)
 					t0 := hist.Ticket()
